@@ -48,11 +48,23 @@ def gen_case(rng, quick=True):
         d = G.gen_doc(rng, max_events=4, max_mult=3)
         kind = "oscar"
     n = len(d["events"])
+    if kind == "oscar":
+        # every event its own impact parameter and ending, so that a misplaced end line is visible
+        for i, ev in enumerate(d["events"]):
+            ev["b"] = f"{i + 1}.{rng.choice([0, 125, 250, 500, 750])}"
+            ev["yn"] = "yes" if i % 2 else "no"
+        # empty events anywhere
+        for ev in d["events"]:
+            if rng.random() < 0.25:
+                ev["rows"] = []
     r = rng.random()
-    if r < 0.4:
+    if r < 0.3:
         sel = None
-    elif r < 0.65:
+    elif r < 0.5:
         sel = rng.randrange(n)
+    elif r < 0.75 and n >= 3:
+        a = rng.randrange(1, n - 1)            # ranges that do not start at the first event
+        sel = [a, rng.randrange(a + 1, n)]
     else:
         a = rng.randrange(n)
         sel = [a, rng.randrange(a, n)]
@@ -283,7 +295,7 @@ def classify(case, msg):
 
 
 def correspondence(ctx, model_ok=True):
-    n = 150 if ctx.quick else 2500
+    n = 240 if ctx.quick else 3000
     cases = [gen_case(ctx.rng) for _ in range(n)]
     out = {"evaluations": n, "distinct_nontrivial": 0, "rule": "", "samples": [], "failures": [], "broken": []}
     keys = set()
